@@ -1141,3 +1141,76 @@ func TestOwnership(t *testing.T) {
 		t.Errorf("VIOLATION-CANDIDATE property=%s test=ownership replay=%s\n%s", property, path, msg)
 	}
 }
+
+// ---- (d) which timeout applies ------------------------------------------------------------------------------------
+
+// TimeoutCase: a timeout on the client, on the request, on both or on neither (0 = not set), and a server that answers
+// at once or after 400 ms. The timeouts are 40 ms and 5 s, so that every combination has a verdict with a wide margin:
+// the request's timeout applies if it is set, else the client's.
+type TimeoutCase struct {
+	ClientMs, RequestMs int
+	Via                 string // R (Request.SetTimeout) | config (client.Config{Timeout} of the convenience call)
+	Slow                bool
+}
+
+func checkTimeout(c TimeoutCase) vk.Verdict {
+	app := fiber.New()
+	app.Get("/slow", func(ctx fiber.Ctx) error { time.Sleep(400 * time.Millisecond); return ctx.SendString("late") })
+	app.Get("/fast", func(ctx fiber.Ctx) error { return ctx.SendString("now") })
+	ln := fasthttputil.NewInmemoryListener()
+	go func() { _ = app.Listener(ln, fiber.ListenConfig{DisableStartupMessage: true}) }()
+	defer func() { _ = app.Shutdown() }()
+	cl := client.New().SetDial(func(string) (net.Conn, error) { return ln.Dial() })
+	if c.ClientMs > 0 {
+		cl.SetTimeout(time.Duration(c.ClientMs) * time.Millisecond)
+	}
+	url := "http://example.com/fast"
+	if c.Slow {
+		url = "http://example.com/slow"
+	}
+	start := time.Now()
+	var resp *client.Response
+	var err error
+	if c.Via == "config" {
+		cfg := client.Config{}
+		if c.RequestMs > 0 {
+			cfg.Timeout = time.Duration(c.RequestMs) * time.Millisecond
+		}
+		resp, err = cl.Get(url, cfg)
+	} else {
+		r := cl.R()
+		if c.RequestMs > 0 {
+			r.SetTimeout(time.Duration(c.RequestMs) * time.Millisecond)
+		}
+		resp, err = r.Get(url)
+	}
+	took := time.Since(start)
+	if resp != nil {
+		defer resp.Close()
+	}
+	eff := c.ClientMs
+	if c.RequestMs > 0 {
+		eff = c.RequestMs
+	}
+	ctx := fmt.Sprintf("client timeout %d ms, request timeout %d ms (set through %s), server answers after %v: the call returned after %v with err=%v", c.ClientMs, c.RequestMs, c.Via, map[bool]string{true: "400 ms", false: "0 ms"}[c.Slow], took.Round(time.Millisecond), err)
+	v := vk.Verdict{NonTrivial: c.ClientMs > 0 && c.RequestMs > 0 && c.ClientMs != c.RequestMs, Classes: []string{fmt.Sprintf("client:%d request:%d slow:%v", c.ClientMs, c.RequestMs, c.Slow)}}
+	if c.Slow && eff == 40 {
+		// the timeout that applies is 40 ms
+		if err == nil { // (how long the call took is reported, not judged: the machine may be busy)
+			return vk.Failf("%s - the timeout that applies is %d ms (the request's if it is set, else the client's)", ctx, eff)
+		}
+		return v
+	}
+	if err != nil {
+		return vk.Failf("%s - the timeout that applies is %d ms (0 = none), the answer was in time", ctx, eff)
+	}
+	return v
+}
+
+var propTimeout = vk.Register(&vk.Prop[TimeoutCase]{Property: property, Name: "timeouts", Check: checkTimeout, Quick: 12, Thorough: 40,
+	Gen: func(t *rapid.T) TimeoutCase {
+		return TimeoutCase{ClientMs: rapid.SampledFrom([]int{0, 40, 5000}).Draw(t, "client"), RequestMs: rapid.SampledFrom([]int{0, 40, 5000}).Draw(t, "request"),
+			Via: rapid.SampledFrom([]string{"R", "config"}).Draw(t, "via"), Slow: rapid.IntRange(0, 3).Draw(t, "slow") != 0}
+	}})
+
+func TestTimeouts(t *testing.T) { propTimeout.Run(t) }
